@@ -170,6 +170,21 @@ def evaluate(d):
     lines, expect, orc = [], [], None
     answers = {}
     procs = [p for p in d["procs"] if not (p == "log" and (m < 2 or n == 0))]
+    if d.get("abort") is not None and n > 0:
+        # call history: a sort of a twin population (equal fitness values, other objects) that is ABORTED by an
+        # exception (one fitness cannot be compared: complex value), then the sorts under test.  The result of a
+        # sort depends on its argument only, whatever happened in earlier calls.
+        twin = build(d)
+        bad = Indiv([0.0])
+        bad.fitness = fit_class([Fr(x) for x in d["w"]])()
+        bad.fitness.wvalues = (1j,) + (0.0,) * (m - 1)
+        twin.insert(min(max(0, d["abort"]), n), bad)
+        for proc in procs:
+            fn = emo.sortNondominated if proc == "std" else emo.sortLogNondominated
+            try:
+                fn(twin, len(twin))
+            except Exception:
+                pass
     for proc in procs:
         fn = emo.sortNondominated if proc == "std" else emo.sortLogNondominated
         name = "sortNondominated" if proc == "std" else "sortLogNondominated"
@@ -324,7 +339,12 @@ def random_cases(tier, rng, mult):
         kind, pop = random_pop(rng, n, m, KINDS[it % len(KINDS)])
         ks = sorted(set([0, 1, n - 1, n, n + 1, rng.randint(0, n + 1), rng.randint(0, n + 1), max(0, n // 2)]))
         ks = [k for k in ks if k >= 0]
-        yield case(rand_weights(rng, m), pop, ks, "rand/%s/m=%d" % (kind, m))
+        c = case(rand_weights(rng, m), pop, ks, "rand/%s/m=%d" % (kind, m))
+        if it % 8 == 3:                      # every eighth case runs after an aborted sort of a twin population
+            c["abort"] = n if rng.random() < 0.7 else rng.randint(0, n)
+            c["ks"] = sorted(c["ks"], reverse=True)      # the complete ranking is asked first, right after the abort
+            c["tag"] += "/after-abort"
+        yield c
 
 
 NEAR_BASES = [0.3, 0.1 + 0.2, 0.7, 1.1, 2.675, 1e-3, 1000.004, 123456.789]
